@@ -162,6 +162,10 @@ pub fn observable_digest(r: &RunResult) -> u64 {
             cleaned.push_str(head);
             cleaned.push_str(" panicked");
             cleaned.push_str(tail);
+        } else if line.starts_with("thread '") && line.contains(") has overflowed its stack") {
+            // same for the runtime's stack-overflow message
+            cleaned.push_str(line.split(" (").next().unwrap_or(""));
+            cleaned.push_str(" has overflowed its stack");
         } else {
             cleaned.push_str(line);
         }
